@@ -5,6 +5,9 @@ usage: scripts/selftest.py [name-substring]"""
 import json, os, re, subprocess, sys, concurrent.futures
 root = os.path.dirname(os.path.dirname(os.path.abspath(__file__)))
 exp = json.load(open(os.path.join(root, 'selftest', 'expected.json')))
+import glob
+for f in sorted(glob.glob(os.path.join(root, 'selftest', 'expected.d', '*.json'))):
+    exp.update(json.load(open(f)))
 flt = sys.argv[1] if len(sys.argv) > 1 else ''
 def run(item):
     name, spec = item
